@@ -458,9 +458,10 @@ def classify(v):
     if not (d.get('s_el') and d.get('stale_estimate')):
         return None
     if d.get('here') == 'TypeError' and \
-            d.get('estimate', {}).get('latest_dec_of_obj') == -1 and \
-            'ok' in (d.get('fresh') or {}):
-        # the object never decomposed anything: its molecule name is None
+            d.get('estimate', {}).get('latest_dec_of_obj') == -1:
+        # the object never decomposed anything: its molecule name is None and
+        # the elemental sum fails on it before anything else is looked at
+        # (whatever a fresh process returns or raises for this molecule)
         return 'selements-uses-last-decomposed-molecule'
     try:
         from vmon.props.c07 import elemental_sum
